@@ -2168,8 +2168,14 @@ codec_revert:
 	return 0;
 }
 
-static void
-handshake_switch_downenc(int dns_fd)
+static int
+handshake_switch_downenc(int dns_fd, int server_moved)
+/* server_moved: the server may have left Base32 already.
+   Returns:
+   0: the server answers in the codec that downenc names afterwards
+      (downenc is changed to Base32 when the requested codec did not work)
+   1: the server's downstream codec is unknown
+*/
 {
 	char sw_downenc[] = { 'o', b32_5to8(userid), tolower(downenc), 0 };
 	char in[4096];
@@ -2207,20 +2213,42 @@ handshake_switch_downenc(int dns_fd)
 				fprintf(stderr, "Server rejected the selected codec. ");
 				goto codec_revert;
 			}
-			in[read] = 0; /* zero terminate */
+			if (strcmp(in, dname) != 0) {
+				/* The server has switched and answers with the
+				   codec's name in the new codec: anything else
+				   was damaged on the way back */
+				fprintf(stderr, "Server's reply arrived damaged. ");
+				break;
+			}
 			fprintf(stderr, "Server switched downstream to codec %s\n", in);
-			return;
+			return 0;
 		}
 
 		fprintf(stderr, "Retrying codec switch...\n");
 	}
 	if (!running)
-		return;
+		return 0;
 
-	fprintf(stderr, "No reply from server on codec switch. ");
+	if (i >= 5)
+		fprintf(stderr, "No reply from server on codec switch. ");
+
+	/* Our requests may have arrived and only the replies got lost or
+	   damaged: then the server has switched already and everything it
+	   sends from now on is lost or damaged as well. Make it return to
+	   Base32 too. */
+	fprintf(stderr, "Falling back to downstream codec Base32\n");
+	if (downenc != 'T') {
+		downenc = 'T';
+		return handshake_switch_downenc(dns_fd, 1);
+	}
+	/* Base32 is also what the server uses when it never saw a request */
+	return server_moved;
 
 codec_revert:
+	/* the server refused and keeps the codec it had */
 	fprintf(stderr, "Falling back to downstream codec Base32\n");
+	downenc = 'T';
+	return server_moved;
 }
 
 static void
@@ -2566,10 +2594,14 @@ client_handshake(int dns_fd, int raw_mode, int autodetect_frag_size, int fragsiz
 			return -1;
 
 		if (downenc != ' ') {
-			handshake_switch_downenc(dns_fd);
+			r = handshake_switch_downenc(dns_fd, 0);
 		}
 		if (!running)
 			return -1;
+		if (r) {
+			warnx("couldn't agree on a downstream codec with the server");
+			return r;
+		}
 
 		if (lazymode) {
 			handshake_try_lazy(dns_fd);
